@@ -196,6 +196,30 @@ FLOAT_READERS = [
 ]
 
 
+def _type_facts(nf, tparam: str) -> list[str]:
+    """Element types the path's facts leave possible for `tparam`: positive isinstance facts (a union `A | B` or tuple
+    `(A, B)` is split), minus the alternatives refuted by negative isinstance facts."""
+    pos: list[list[str]] = []
+    neg: set[str] = set()
+    for t_, p_ in nf:
+        m_ = re.fullmatch(rf"isinstance\({re.escape(tparam)}, \(?([\w.]+(?:(?: \| |, )[\w.]+)*)\)?\)", t_)
+        if m_:
+            alts = re.split(r" \| |, ", m_.group(1))
+            if p_:
+                pos.append(alts)
+            else:
+                neg.update(alts)
+        m_ = re.fullmatch(rf"{re.escape(tparam)} == '([\w.]+)\(\)'", t_)  # match type: case Float32Type():
+        if m_ and p_:
+            pos.append([m_.group(1)])
+    if not pos:
+        return []
+    cur = [a for a in pos[0] if a not in neg]
+    for alts in pos[1:]:
+        cur = [a for a in cur if a in alts]
+    return cur
+
+
 def check_float_forms(idx: Index, rep: Report) -> None:
     r = rep.rule("C06.R3", "every literal form print_float can emit is read bit-exactly by every reader of floats: decimal forms are FLOAT_LIT, and each reader turns a 0x… INTEGER_LIT into the value by bit-cast", floor=4)
     pf = idx.func(PRINTER, "Printer.print_float")
@@ -222,7 +246,7 @@ def check_float_forms(idx: Index, rep: Report) -> None:
     from ..paths import enum_paths, expand_predicates
 
     n_forms = {"bits": 0, "g": 0, "e5": 0, "repr": 0}
-    bad_g, bad_e, bad_nf = [], [], []
+    bad_g, bad_e, bad_nf, bad_bits = [], [], [], []
     for pth in expand_predicates(enum_paths(pf.node), {}):
         if not pth.feasible():
             continue
@@ -237,8 +261,15 @@ def check_float_forms(idx: Index, rep: Report) -> None:
                 continue
             T = pth.res(e_.value.args[0], k)
             mg = re.fullmatch(r"f'\{value:\.(\d+)g\}'", T)
-            if (".hex()" in T and "pack(" in T) or re.search(r"convert_f(32|64)_to_u(32|64)\(value\):X", T):
+            mb = re.search(r"convert_f(32|64)_to_u(32|64)\(value\):X", T)
+            if (".hex()" in T and "pack(" in T) or mb:
                 n_forms["bits"] += 1
+                if mb:
+                    tys = _type_facts(nf, pf.node.args.args[2].arg)
+                    want_w = {"Float32Type": "32", "Float64Type": "64"}
+                    wrong = [t_ for t_ in tys if want_w.get(t_.split(".")[-1]) not in (None, mb.group(1))] or ([] if tys else ["<any>"])
+                    if mb.group(1) != mb.group(2) or wrong:
+                        bad_bits.append((T, wrong, e_.lineno))
                 continue
             if mg:
                 kind = "g"
@@ -266,6 +297,11 @@ def check_float_forms(idx: Index, rep: Report) -> None:
         r.ok("lossless-check", f"{pf.loc} '.5e' form printed only after re-packing it gives the same value")
     elif bad_e:
         r.fail("lossless-check", Finding("C06.R3", pf.fq, "lossless-check-missing", f"the short scientific form `{bad_e[0]}` is printed without verifying that it re-parses to the same value in the element type", pf.loc))
+    if bad_bits:
+        T_, wrong_, ln_ = bad_bits[0]
+        r.fail("bits-width", Finding("C06.R3", pf.fq, "bits-width-mismatch", f"`{T_[:70]}` prints the bit pattern of a fixed width on a path where the element type can be {wrong_}: the reader interprets a hex literal as a pattern of the element type's own width, so the value comes back as a different number", f"{pf.module.relpath}:{ln_}"))
+    elif n_forms["bits"]:
+        r.ok("bits-width", f"{pf.loc} fixed-width bit patterns are printed only for the element type of that width")
     if n_forms["bits"] and not bad_nf:
         r.ok("nan-inf-hex", f"{pf.loc} NaN/Inf printed as the bit pattern of the packed value; decimal forms only for finite values")
     else:
@@ -308,8 +344,7 @@ def check_float_digits(idx: Index, rep: Report) -> None:
         if not pth.feasible():
             continue
         nf = pth.nfacts()
-        types = [m_.group(1) for t_, p_ in nf if p_ and (m_ := re.fullmatch(rf"isinstance\({tparam}, ([\w.]+)\)", t_))]
-        types += [m_.group(1) for t_, p_ in nf if p_ and (m_ := re.fullmatch(rf"{tparam} == '([\w.]+)\(\)'", t_))]  # match type: case Float32Type():
+        types = _type_facts(nf, tparam)
         for k, e_ in enumerate(pth.effects):
             if not (isinstance(e_, ast.Expr) and isinstance(e_.value, ast.Call) and unparse(e_.value.func) == "self.print_string" and e_.value.args):
                 continue
